@@ -271,7 +271,7 @@ CHECKS["C20"] = {
     "parts": [{"variant": "ts", "kind": "script", "script": "c20_driver.py", "timeout_quick": 2400, "timeout_thorough": 4 * 3600}],
     "level": "other",
     "technique": "compile gate of a thread-shipping workload (a Send/Sync bound error is the violation witness) + sanitizers on its execution: Miri's data-race/UB interpreter over several schedule seeds, ThreadSanitizer (thorough), and a native many-thread run comparing every cross-thread rendering with the single-threaded one",
-    "rule": "every public statement / expression / condition / value / identifier type found by scanning /repo/src for `pub struct|enum` (131 names: 125 shipped with a non-trivial nested instance, 6 without public constructor gated at compile time only); each instance is built on one thread, moved through a channel, shared via Arc with N workers that render on three backends, clone, compare (==, exercising the unsafe transmute in SeaRc::eq) and drop concurrently; an async fn builds a value, is suspended across an await point and completed on another thread by a hand-written block_on; distinct_nontrivial = number of distinct types shipped",
+    "rule": "every public statement / expression / condition / value / identifier type found by scanning /repo/src for `pub struct|enum` (131 names: 125 shipped with a non-trivial nested instance, 6 without public constructor gated at compile time only); each instance is built on one thread, moved through a channel, shared via Arc with N workers that render on three backends, clone, compare (==, exercising the unsafe transmute in SeaRc::eq) and drop concurrently; an async fn builds a value, is suspended across an await point and completed on another thread by a hand-written block_on; extra rows: a 400-level nested expression walked by all workers at once (renderings in flight add up to thousands of levels), inject_parameters over shared input preceded each time by a call given too few values (fault injection: it panics for that caller only); the by-value iterator type of ValueTuple is part of the compile gate; distinct_nontrivial = number of distinct types shipped",
     "explanation": "Send + Sync is a type-level fact: the workload only compiles if every listed type satisfies the bounds under feature thread-safe (with all optional value-type features), so a type-level break is reported as a violation with the rustc diagnostic (E0277) as witness; the compile gate is not an observed execution and the evidence keeps it apart from the dynamic stages. An unsound `unsafe impl Send/Sync` shows up dynamically: Miri (data race / UB, quick: 16 executions over reduced instances, thorough: ~300), ThreadSanitizer (thorough, 5 repetitions, -Zbuild-std) and the native run (12-16 threads, renderings compared). `dyn QueryBuilder`/`dyn SchemaBuilder` trait objects carry no Send/Sync bound and are outside the property's quantifier.",
     "assumptions": [
         "Miri is ~4 orders of magnitude slower than native here, so Miri rows use structurally identical but smaller instances (listed in the evidence as miri_rows_run)",
